@@ -339,6 +339,23 @@ def check(case):
         if compare(v, f"Substance({ta!r}) + Substance({tb!r})", r, ca + cb, nat) is None and not v.violations:
             ck = collections.Counter({key: n * k for key, n in ca.items()})
             compare(v, f"Substance({ta!r}) * {k}", r2, ck, nat)
+        if not v.violations:
+            # augmented assignments are the same operations; a zero multiple contributes nothing to a sum
+            try:
+                sa_ = Substance(ta, natural=nat)
+                sa_ += Substance(tb, natural=nat)
+                if compare(v, f"s = Substance({ta!r}); s += Substance({tb!r}); s", sa_, ca + cb, nat) is None and not v.violations:
+                    sm_ = Substance(ta, natural=nat)
+                    sm_ *= k
+                    compare(v, f"s = Substance({ta!r}); s *= {k}; s", sm_, collections.Counter({key: n * k for key, n in ca.items()}), nat)
+                if not v.violations:
+                    z = Substance(ta, natural=nat) + Substance(tb, natural=nat) * 0
+                    cz = collections.Counter({key: 0 for key in cb})
+                    cz.update(ca)
+                    compare(v, f"Substance({ta!r}) + Substance({tb!r}) * 0", z, cz, nat)
+            except Exception as e:
+                v.fail("formula-rejected", f"augmented += / *= or a zero multiple of Substance({ta!r}), Substance({tb!r}) raised {e!r}")
+                return v
         if not v.violations and first:
             # a product / sum is a new substance: extending it in place leaves the operand as it was, and vice versa
             try:
